@@ -92,6 +92,7 @@ func main() {
 	raceRepo := flag.String("racerepo", "", "comma separated package patterns of the repository to lint with the race binary (thorough)")
 	repo := flag.String("repo", "/repo", "repository root (for -racerepo)")
 	par := flag.Int("par", 4, "concurrent runs")
+	ntraced := flag.Int("traced", 1000, "how many of the runs naming all packages record their scheduler trace")
 	flag.Parse()
 	rnd := hx.NewRand(*seed)
 	env = hx.GoEnv()
@@ -151,10 +152,16 @@ func main() {
 		if i%2 == 1 {
 			pats = shuffled(rnd, allPats)
 		}
-		mk("same", gmp, y, pats, "json", true)
+		r := mk("same", gmp, y, pats, "json", true)
+		if i >= *ntraced {
+			r.Trace = ""
+		}
 	}
 	tx0 := mk("text", 1, 0, []string{"./..."}, "text", true)
 	tx1 := mk("text", 16, 1+rnd.Uint64()%1000000, shuffled(rnd, allPats), "text", true)
+	if *ntraced < *nsame {
+		tx0.Trace, tx1.Trace = "", ""
+	}
 	for i := 0; i < *npartial; i++ {
 		k := 1 + rnd.Intn(len(allPats)-1)
 		mk("partial", gmps[rnd.Intn(len(gmps))], rnd.Uint64()%1000000, shuffled(rnd, allPats)[:k], "json", true)
@@ -411,16 +418,16 @@ func raceReport(stderr string) string {
 
 // function bodies that trigger a check each; %s is replaced by a unique suffix
 var snippets = []string{
-	"func SelfAssign%s(n int) int {\n\tx := n\n\tx = x\n\treturn x\n}\n",                                   // SA4018
-	"func BoolCmp%s(b bool) int {\n\tif b == true {\n\t\treturn 1\n\t}\n\treturn 0\n}\n",                 // S1002
-	"func Ident%s(n int) bool {\n\tif n == n {\n\t\treturn true\n\t}\n\treturn false\n}\n",               // SA4000, S1008
-	"func RetBool%s(x int) bool {\n\tif x > 0 {\n\t\treturn true\n\t}\n\treturn false\n}\n",              // S1008
-	"func Merge%s() int {\n\tvar x int\n\tx = 1\n\treturn x\n}\n",                                         // S1021
-	"func LoopExit%s(n int) int {\n\tfor i := 0; i < n; i++ {\n\t\treturn i\n\t}\n\treturn 0\n}\n",        // SA4004
-	"func Redundant%s(n *int) {\n\t*n = 1\n\treturn\n}\n",                                                 // S1023
-	"func NeverUsed%s(n int) int {\n\tx := n + 1\n\tx = n + 2\n\treturn x\n}\n",                           // SA4006
-	"func unusedFn%s() int { return 3 }\n",                                                                // U1000
-	"type unusedT%s struct{ f int }\n",                                                                    // U1000
+	"func SelfAssign%s(n int) int {\n\tx := n\n\tx = x\n\treturn x\n}\n",                           // SA4018
+	"func BoolCmp%s(b bool) int {\n\tif b == true {\n\t\treturn 1\n\t}\n\treturn 0\n}\n",           // S1002
+	"func Ident%s(n int) bool {\n\tif n == n {\n\t\treturn true\n\t}\n\treturn false\n}\n",         // SA4000, S1008
+	"func RetBool%s(x int) bool {\n\tif x > 0 {\n\t\treturn true\n\t}\n\treturn false\n}\n",        // S1008
+	"func Merge%s() int {\n\tvar x int\n\tx = 1\n\treturn x\n}\n",                                  // S1021
+	"func LoopExit%s(n int) int {\n\tfor i := 0; i < n; i++ {\n\t\treturn i\n\t}\n\treturn 0\n}\n", // SA4004
+	"func Redundant%s(n *int) {\n\t*n = 1\n\treturn\n}\n",                                          // S1023
+	"func NeverUsed%s(n int) int {\n\tx := n + 1\n\tx = n + 2\n\treturn x\n}\n",                    // SA4006
+	"func unusedFn%s() int { return 3 }\n",                                                         // U1000
+	"type unusedT%s struct{ f int }\n",                                                             // U1000
 	"func Clean%s(a, b int) int { return a*b + 1 }\n",
 }
 
